@@ -42,6 +42,9 @@ structure Act where
 structure Body where
   acts : List Act
   throws : Bool
+  /-- the error handler `_onTaskError` itself throws when it is first invoked for this task (the wrapper's `catch` lets
+  that exception escape; the worker loop's own `catch (...)` then invokes the handler a second time) -/
+  hthrow : Bool := false
   deriving DecidableEq, Repr, Inhabited
 
 /-- controller operations -/
@@ -53,6 +56,11 @@ inductive MOp
   | stop
   | shutdown
   | destroy
+  /-- create a further controller thread running `Cfg.ctls[ix]` (it may call drain/stop/shutdown and submit; `destroy`
+  and `restart` are ignored there: only the owning thread destroys or restarts the pool) -/
+  | spawnCtl (ix : Nat)
+  /-- `reset()` then `start()` (only from state Stopped) -/
+  | restart
   deriving DecidableEq, Repr, Inhabited
 
 structure Cfg where
@@ -68,12 +76,28 @@ structure Cfg where
   hook : Bool
   bodies : List Body
   main : List MOp
+  /-- scripts of the additional controller threads -/
+  ctls : List (List MOp) := []
+  /-- `restart` operations are executed (the driver sets this; the theorems of Props/C09 are about pools that are not
+  restarted and assume `false`, in which case `restart` is a no-op) -/
+  allowRestart : Bool := false
   deriving Repr, Inhabited
 
 def Cfg.bodyAt (cfg : Cfg) (i : Nat) : Body :=
   match cfg.bodies[i]? with
   | some b => b
   | none => { acts := [], throws := false }
+
+def Cfg.ctlAt (cfg : Cfg) (i : Nat) : List MOp :=
+  match cfg.ctls[i]? with
+  | some l => l
+  | none => []
+
+/-- mirrors `ThreadPool::effectiveMaxSize` (fixes/FC09b): the worker limit actually used is at least 1 and at least
+`initialSize` -/
+def Cfg.effMax (cfg : Cfg) : Nat :=
+  let atLeast := if cfg.initialSize > 0 then cfg.initialSize else 1
+  if cfg.maxSize < atLeast then atLeast else cfg.maxSize
 
 /-- `iora::common::LifecycleState` -/
 inductive Life | created | running | draining | stopped | reset
@@ -138,9 +162,10 @@ inductive WSt
   /-- the body of task `id` is inside / before an enqueue call -/
   | body (id : Nat) (c : CallSt)
   /-- L _configMutex in the `catch (...)` of the `enqueue`/`tryEnqueue` wrapper -/
-  | cfgLock (id : Nat)
-  /-- U _configMutex, then the error handler runs -/
-  | cfgUnlock (id : Nat)
+  | cfgLock (id : Nat) (again : Bool)
+  /-- U _configMutex, then the error handler runs; `again` = this is the worker loop's own `catch`, entered because the
+  handler threw out of the wrapper's `catch` -/
+  | cfgUnlock (id : Nat) (again : Bool)
   /-- the lambda has returned -/
   | done
   deriving DecidableEq, Repr, Inhabited
@@ -156,6 +181,8 @@ inductive SSt
 inductive MPc
   /-- S -/
   | start
+  /-- S of an additional controller thread -/
+  | startAux
   /-- constructor `spawnWorker()`: L _mutex / C / U _mutex -/
   | cL | cC | cU
   /-- Y "m": harness yield between controller operations -/
@@ -164,7 +191,9 @@ inductive MPc
   | inCall (c : CallSt)
   /-- C: create a submitter thread running `script` -/
   | mSpawn (script : List Act)
-  /-- J: join the first remaining submitter -/
+  /-- C: create a further controller thread -/
+  | mSpawnCtl (ix : Nat)
+  /-- J: join the first remaining submitter / controller -/
   | mJoin
   /-- `getInFlightCount()` at the start of `drain()`: L / U -/
   | dInfL | dInfU
@@ -174,6 +203,8 @@ inductive MPc
   | finL (k : Poll) | finU (k : Poll)
   /-- `shutdown()` / phase 1: L, U (already shut down), U, B -/
   | sFlagL | sFlagUA | sFlagU | sBcast
+  /-- `shutdown()` found `_shutdown` already set: Z 1 ms while `!_shutdownComplete` (fixes/FC09a) -/
+  | sDoneZ
   /-- `shutdown()`: Z 10 ms, then the re-check L / U -/
   | sGrace | sChkL | sChkU
   /-- join loop (shutdown() and phase 4): L (pick), U, J / D, U (none left) -/
@@ -184,6 +215,9 @@ inductive MPc
   | p4CfgL | p4CfgU
   /-- phase 5: L / U -/
   | p5L | p5U
+  /-- `reset()`: L (clear `_tasks`, `_threads`) / U (counters), then `start()`: L (`_shutdown = false`) / U, then
+  `spawnWorker()` × initialSize: L / C / U -/
+  | rsL | rsU | stL | stU | kL | kC | kU
   /-- the controller function has returned -/
   | done
   deriving DecidableEq, Repr, Inhabited
@@ -201,6 +235,8 @@ structure MRegs where
   maxWait : Nat := 0
   iter : Nat := 0
   inflight : Nat := 0
+  /-- an additional controller thread (not the owner of the pool) -/
+  aux : Bool := false
   deriving DecidableEq, Repr, Inhabited
 
 inductive Thread
@@ -246,9 +282,12 @@ structure Shared where
   shutCalled : Bool := false
   /-- a join loop has completed (found no joinable thread) -/
   quiesced : Bool := false
-  /-- results of the controller operations, newest first: 1 drain ok, 2 drain timed out, 3 drain refused (state),
+  /-- `_shutdownComplete` -/
+  complete : Bool := false
+  /-- results of the controller operations, newest first: 1 drain() ok, 2 drain() timed out, 3 drain() refused (state),
   4 stop ok, 5 stop failed (drain), 6 stop refused (state), 7 shutdown returned, 8 destructor returned,
-  9 destructor returned with joinable threads left (`std::terminate`) -/
+  9 destructor returned with joinable threads left (`std::terminate`), 10 restarted (`reset()` + `start()`),
+  11 restart refused (state), 13 destructor returned although another thread's `shutdown()` had not completed -/
   mlog : List Nat := []
 
 structure St where
@@ -359,7 +398,7 @@ def callStep (cfg : Cfg) (sh : Shared) (n : Nat) (t : Tid) (c : CallSt) : Shared
       ({ sh with owner := some t, result := setF sh.result cid .refShutdown }, .more (.inCall rest cid .unlockR), .none)
     else if sh.tasks.length ≥ cfg.maxQueue then
       ({ sh with owner := some t, result := setF sh.result cid .refFull }, .more (.inCall rest cid .unlockR), .none)
-    else if sh.threads.length < cfg.maxSize then
+    else if sh.threads.length < cfg.effMax then
       ({ sh with owner := some t, tasks := sh.tasks ++ [cid], accCnt := bump sh.accCnt cid,
                  result := setF sh.result cid .accepted }, .more (.inCall rest cid .create), .none)
     else
@@ -381,7 +420,7 @@ def taskDone (sh : Shared) : Shared × WSt :=
 def bodyEnd (cfg : Cfg) (sh : Shared) (id : Nat) : Shared × WSt :=
   if (cfg.bodyAt (sh.bodyIx id)).throws && sh.modeOf id != .withResult then
     ({ sh with doneCnt := bump sh.doneCnt id, nDone := sh.nDone + 1,
-               outcome := setF sh.outcome id (some (cfg.bodyAt (sh.bodyIx id)).throws) }, .cfgLock id)
+               outcome := setF sh.outcome id (some (cfg.bodyAt (sh.bodyIx id)).throws) }, .cfgLock id false)
   else
     ({ sh with doneCnt := bump sh.doneCnt id, nDone := sh.nDone + 1,
                outcome := setF sh.outcome id (some (cfg.bodyAt (sh.bodyIx id)).throws),
@@ -447,10 +486,14 @@ def transW (cfg : Cfg) (sh : Shared) (n : Nat) (t : Tid) (w : WSt) : Shared × W
     match x.2.1 with
     | .more c' => (x.1, .body id c', x.2.2)
     | .done => let y := bodyEnd cfg x.1 id; (y.1, y.2, x.2.2)
-  | .cfgLock id => ({ sh with ownerCfg := some t }, .cfgUnlock id, .none)
-  | .cfgUnlock id =>
-    let x := taskDone { sh with ownerCfg := none, handled := bump sh.handled id }
-    (x.1, x.2, .none)
+  | .cfgLock id again => ({ sh with ownerCfg := some t }, .cfgUnlock id again, .none)
+  | .cfgUnlock id again =>
+    if !again && (cfg.bodyAt (sh.bodyIx id)).hthrow then
+      -- the handler throws: the exception leaves the wrapper and is caught by the worker loop's own `catch (...)`
+      ({ sh with ownerCfg := none, handled := bump sh.handled id }, .cfgLock id true, .none)
+    else
+      let x := taskDone { sh with ownerCfg := none, handled := bump sh.handled id }
+      (x.1, x.2, .none)
   | .done => (sh, .done, .none)
 
 -- ------------------------------------------------------------------------------------------- submitter
@@ -469,14 +512,15 @@ def logM (sh : Shared) (code : Nat) : Shared := { sh with mlog := code :: sh.mlo
 
 /-- `shutdown()` has returned -/
 def shutdownReturn (sh : Shared) (r : MRegs) : Shared × MPc × MRegs :=
-  if r.inStop then ({ sh with life := .stopped, mlog := 4 :: 7 :: sh.mlog }, .mYield, { r with inStop := false })
-  else ({ sh with mlog := 7 :: sh.mlog }, .mYield, r)
+  if r.inStop then ({ sh with complete := true, life := .stopped, mlog := 4 :: 7 :: sh.mlog }, .mYield, { r with inStop := false })
+  else ({ sh with complete := true, mlog := 7 :: sh.mlog }, .mYield, r)
 
 /-- `drain()` has returned -/
 def drainReturn (sh : Shared) (r : MRegs) (ok : Bool) : Shared × MPc × MRegs :=
   if r.inStop then
-    if ok then ({ sh with mlog := 1 :: sh.mlog }, .sFlagL, r)
-    else ({ sh with mlog := 5 :: 2 :: sh.mlog }, .mYield, { r with inStop := false })
+    -- inside stop(): only the outcome of stop() itself is logged
+    if ok then (sh, .sFlagL, r)
+    else ({ sh with mlog := 5 :: sh.mlog }, .mYield, { r with inStop := false })
   else ({ sh with mlog := (if ok then 1 else 2) :: sh.mlog }, .mYield, r)
 
 /-- entry of `drain(timeoutMs)` (state already checked to be Running) -/
@@ -497,7 +541,7 @@ def pollHead (sh : Shared) (r : MRegs) (k : Poll) : Shared × MPc × MRegs :=
   if r.waitMs < r.maxWait then (sh, .pollL k, { r with a := sh.active }) else pollExit sh r k false
 
 /-- Y "m": dispatch the next controller operation -/
-def stepMYield (sh : Shared) (r : MRegs) : Shared × MPc × MRegs :=
+def stepMYield (cfg : Cfg) (sh : Shared) (r : MRegs) : Shared × MPc × MRegs :=
   match r.mscript with
   | [] => (sh, .done, r)
   | op :: rest =>
@@ -513,11 +557,23 @@ def stepMYield (sh : Shared) (r : MRegs) : Shared × MPc × MRegs :=
       else if sh.life = .draining then (sh, .sFlagL, { r with mscript := rest, inStop := true })
       else ({ sh with mlog := 6 :: sh.mlog }, .mYield, { r with mscript := rest })
     | .shutdown => (sh, .sFlagL, { r with mscript := rest })
-    | .destroy => (sh, .sFlagL, { r with mscript := rest, inDtor := true })
+    | .destroy =>
+      if r.aux then (sh, .mYield, { r with mscript := rest }) else (sh, .sFlagL, { r with mscript := rest, inDtor := true })
+    | .spawnCtl ix => (sh, .mSpawnCtl ix, { r with mscript := rest })
+    | .restart =>
+      if r.aux || !cfg.allowRestart then (sh, .mYield, { r with mscript := rest })
+      else if sh.life = .stopped then (sh, .rsL, { r with mscript := rest })
+      else ({ sh with mlog := 11 :: sh.mlog }, .mYield, { r with mscript := rest })
 
 /-- the destructor returns (members are destroyed: a joinable `std::thread` left in `_threads` terminates) -/
 def dtorReturn (sh : Shared) (r : MRegs) : Shared × MPc × MRegs :=
   ({ sh with mlog := (if sh.threads = [] then 8 else 9) :: sh.mlog }, .mYield, { r with inDtor := false })
+
+/-- the destructor finds `_shutdown` already set and returns at once; if the `shutdown()` that set it has not completed,
+another thread is still using the object (the caller violated the object's lifetime): code 13 -/
+def dtorEarly (sh : Shared) (r : MRegs) : Shared × MPc × MRegs :=
+  if sh.complete then dtorReturn sh r
+  else ({ sh with mlog := 13 :: sh.mlog }, .mYield, { r with inDtor := false })
 
 /-- one step of the controller -/
 def transM (cfg : Cfg) (sh : Shared) (n : Nat) (t : Tid) (pc : MPc) (r : MRegs) (alt : Nat) : Shared × (MPc × MRegs) × Post :=
@@ -526,18 +582,21 @@ def transM (cfg : Cfg) (sh : Shared) (n : Nat) (t : Tid) (pc : MPc) (r : MRegs) 
     -- constructor: `_accepting.store(true)`, state Running, then `initialSize` times `spawnWorker()`
     if r.ctor = 0 then ({ sh with accepting := true, life := .running }, (.mYield, r), .none)
     else ({ sh with accepting := true, life := .running }, (.cL, r), .none)
+  | .startAux => (sh, (.mYield, r), .none)
   | .cL => ({ sh with owner := some t }, (.cC, r), .none)
   | .cC => ({ sh with threads := sh.threads ++ [n] }, (.cU, r), .spawn newWorker)
   | .cU =>
     if r.ctor ≤ 1 then ({ sh with owner := none }, (.mYield, { r with ctor := r.ctor - 1 }), .none)
     else ({ sh with owner := none }, (.cL, { r with ctor := r.ctor - 1 }), .none)
-  | .mYield => let x := stepMYield sh r; (x.1, (x.2.1, x.2.2), .none)
+  | .mYield => let x := stepMYield cfg sh r; (x.1, (x.2.1, x.2.2), .none)
   | .inCall c =>
     let x := callStep cfg sh n t c
     match x.2.1 with
     | .more c' => (x.1, (.inCall c', r), x.2.2)
     | .done => (x.1, (.mYield, r), x.2.2)
   | .mSpawn sc => (sh, (.mYield, { r with subs := r.subs ++ [n] }), .spawn (.sub (.start sc)))
+  | .mSpawnCtl ix =>
+    (sh, (.mYield, { r with subs := r.subs ++ [n] }), .spawn (.main .startAux { mscript := cfg.ctlAt ix, aux := true }))
   | .mJoin =>
     match r.subs with
     | [] => (sh, (.mYield, r), .none)
@@ -562,8 +621,12 @@ def transM (cfg : Cfg) (sh : Shared) (n : Nat) (t : Tid) (pc : MPc) (r : MRegs) 
     if sh.shutdown then ({ sh with owner := some t }, (.sFlagUA, r), .none)
     else ({ sh with owner := some t, shutdown := true, shutCalled := true }, (.sFlagU, r), .none)
   | .sFlagUA =>
-    if r.inDtor then let x := dtorReturn { sh with owner := none } r; (x.1, (x.2.1, x.2.2), .none)
-    else let x := shutdownReturn { sh with owner := none } r; (x.1, (x.2.1, x.2.2), .none)
+    if r.inDtor then let x := dtorEarly { sh with owner := none } r; (x.1, (x.2.1, x.2.2), .none)
+    else if sh.complete then let x := shutdownReturn { sh with owner := none } r; (x.1, (x.2.1, x.2.2), .none)
+    else ({ sh with owner := none }, (.sDoneZ, r), .none)
+  | .sDoneZ =>
+    if sh.complete then let x := shutdownReturn sh r; (x.1, (x.2.1, x.2.2), .none)
+    else (sh, (.sDoneZ, r), .none)
   | .sFlagU => ({ sh with owner := none }, (.sBcast, r), .none)
   | .sBcast =>
     if r.inDtor then (sh, (.p2Z, { r with iter := 0 }), .wakeAll)
@@ -597,6 +660,25 @@ def transM (cfg : Cfg) (sh : Shared) (n : Nat) (t : Tid) (pc : MPc) (r : MRegs) 
   | .p4CfgU => ({ sh with ownerCfg := none }, (.jL, r), .none)
   | .p5L => ({ sh with owner := some t }, (.p5U, r), .none)
   | .p5U => let x := dtorReturn { sh with owner := none } r; (x.1, (x.2.1, x.2.2), .none)
+  -- reset() + start()
+  | .rsL => ({ sh with owner := some t, tasks := [], threads := [] }, (.rsU, r), .none)
+  | .rsU =>
+    ({ sh with owner := none, active := 0, busy := 0, created := 0, started := 0, exited := 0, waiting := 0, life := .reset },
+     (.stL, r), .none)
+  | .stL => ({ sh with owner := some t, shutdown := false, complete := false, quiesced := false }, (.stU, r), .none)
+  | .stU =>
+    if cfg.initialSize = 0 then
+      ({ sh with owner := none, accepting := true, life := .running, mlog := 10 :: sh.mlog }, (.mYield, r), .none)
+    else
+      ({ sh with owner := none, accepting := true, life := .running, mlog := 10 :: sh.mlog }, (.kL, { r with ctor := cfg.initialSize }), .none)
+  | .kL =>
+    -- `std::lock_guard lock(_mutex); if (_threads.size() < workerCount) spawnWorkerLocked();` (FC09c)
+    if sh.threads.length < cfg.initialSize then ({ sh with owner := some t }, (.kC, r), .none)
+    else ({ sh with owner := some t }, (.kU, r), .none)
+  | .kC => ({ sh with threads := sh.threads ++ [n] }, (.kU, r), .spawn newWorker)
+  | .kU =>
+    if r.ctor ≤ 1 then ({ sh with owner := none }, (.mYield, { r with ctor := r.ctor - 1 }), .none)
+    else ({ sh with owner := none }, (.kL, { r with ctor := r.ctor - 1 }), .none)
   | .done => (sh, (.done, r), .none)
 
 /-- one step of a thread that is neither asleep, woken nor finished -/
@@ -616,13 +698,13 @@ def enabled (s : St) (th : Thread) : Bool :=
   match th with
   | .worker .lock => s.sh.owner.isNone
   | .worker (.body _ c) => !c.locks || s.sh.owner.isNone
-  | .worker (.cfgLock _) => s.sh.ownerCfg.isNone
+  | .worker (.cfgLock _ _) => s.sh.ownerCfg.isNone
   | .worker _ => true
   | .sub (.run c) => !c.locks || s.sh.owner.isNone
   | .sub _ => true
   | .main pc r =>
     match pc with
-    | .cL | .dInfL | .pollL _ | .finL _ | .sFlagL | .sChkL | .jL | .p5L => s.sh.owner.isNone
+    | .cL | .dInfL | .pollL _ | .finL _ | .sFlagL | .sChkL | .jL | .p5L | .rsL | .stL | .kL => s.sh.owner.isNone
     | .inCall c => !c.locks || s.sh.owner.isNone
     | .p4CfgL => s.sh.ownerCfg.isNone
     | .mJoin =>
